@@ -213,3 +213,22 @@ theorem C10_timeout_leaves_no_child_result_pending (w : World) (i : IId) (c : EI
 
 end Thm
 end Bubus
+
+namespace Bubus.Thm
+open Bubus
+
+/-- **C16**: a run loop whose task has been cancelled (by `stop()` or from outside) begins no further activation … -/
+theorem C16_cancelled_run_loop_begins_no_activation (w w' : World) (b' b : BId) (e : EId)
+    (hs : step w (.peBegin (.rl b') b e) = some w') : (w.bus b').cancelReq = false := by
+  obtain ⟨hg, _⟩ := step_some hs
+  simp [guard, checks, Checks.ok] at hg
+  exact hg.2.2.2
+
+/-- … and schedules no further handler of the activation it was in: the cancellation terminates it. -/
+theorem C16_cancelled_run_loop_schedules_no_handler (w w' : World) (b' : BId) (i : IId) (b : BId) (e : EId) (k : HId)
+    (hs : step w (.hSched (.rl b') i b e k) = some w') : (w.bus b').cancelReq = false := by
+  obtain ⟨hg, _⟩ := step_some hs
+  simp [guard, checks, Checks.ok] at hg
+  exact hg.2.2.2.2.2.2.2
+
+end Bubus.Thm
